@@ -878,9 +878,20 @@ class Interp:
             if r[0] != "ok":
                 yield s1, r
                 continue
-            if all(x.kind == "const" for x in r[1]):
+            if all(x.kind == "const" and x.shadow is None for x in r[1]) and all(
+                    not isinstance(p, ast.FormattedValue) or p.format_spec is None or
+                    all(isinstance(fs, ast.Constant) for fs in p.format_spec.values) for p in node.values):
                 try:
-                    yield s1, ("ok", const("".join(str(x.d) for x in r[1])))
+                    out = []
+                    for p, x in zip(node.values, r[1]):
+                        if not isinstance(p, ast.FormattedValue):
+                            out.append(str(x.d))
+                            continue
+                        v = x.d
+                        v = {114: repr, 115: str, 97: ascii}.get(p.conversion, lambda o: o)(v)      # !r / !s / !a
+                        spec = "".join(fs.value for fs in p.format_spec.values) if p.format_spec is not None else ""
+                        out.append(format(v, spec))
+                    yield s1, ("ok", const("".join(out)))
                     continue
                 except Exception:  # noqa: BLE001
                     pass
